@@ -53,6 +53,31 @@ TRANSPARENT = {
 }
 
 
+_const_cache = {}
+
+
+def _const_item_expr(facts, path):
+    if not path or not isinstance(path, str):
+        return None
+    k = id(facts)
+    if k not in _const_cache:
+        _const_cache[k] = {fn['path']: fn for fn in facts.fns.values() if fn.get('kind') == 'const'}
+    fn = _const_cache[k].get(path.replace('const ', ''))
+    if fn is None:
+        return None
+    if 'expr' not in fn:
+        fn['expr'] = None
+        defs = [(bi, si, st) for bi, b in enumerate(fn['blocks']) for si, st in enumerate(b['s'])
+                if st['k'] == 'assign' and st['pl']['l'] == 0 and not st['pl']['p']]
+        calls = [b for b in fn['blocks'] if b['t']['k'] == 'call']
+        if len(defs) == 1 and not calls:
+            fx = FnExprs(facts, fn)
+            e = fx.rvalue(defs[0][2]['rv'], (fn['key'], defs[0][0], defs[0][1]))
+            if not any(x[0] in ('local', 'arg', 'unknown') for x in walk(e)):
+                fn['expr'] = e
+    return fn['expr']
+
+
 class FnExprs:
     """per-function resolver"""
 
@@ -160,6 +185,9 @@ class FnExprs:
                 return ('const', str(op['iv']))   # named integer constant, evaluated by the driver
             if 'ivs' in op:
                 return ('const', op['ivs'])
+            ce = _const_item_expr(self.facts, op.get('v'))
+            if ce is not None:
+                return ce      # a named constant of this crate with a simple initialiser (`const NO_DELAY: Option<Duration> = None`)
             return ('const', op.get('v', '?'))
         return ('unknown', 'operand')
 
